@@ -57,6 +57,17 @@ Proof.
   destruct (timed_loop_ev clk att tocode fuel 0 1 abst 0) as [o l]. exact H.
 Qed.
 
+(* ------------------------------------------------------------------ the rem argument *)
+(** The request is taken by value and nothing is stored through [rem]: whichever of the three choices the caller makes
+    for [rem] - NULL, a separate object, the request object itself - the outcome (return value, readings, yields) is
+    [nanosleep] of the request as it was at the call, and every object, [*rem] and [*req] included, holds afterwards
+    what it held before. *)
+Lemma nanosleep_rem_irrelevant clk fuel m preq prem :
+  fst (nanosleep_mem clk fuel m preq prem) = nanosleep clk fuel (m preq) /\
+  (forall prem', fst (nanosleep_mem clk fuel m preq prem') = fst (nanosleep_mem clk fuel m preq prem)) /\
+  (forall l, snd (nanosleep_mem clk fuel m preq prem) l = m l).
+Proof. repeat split; reflexivity. Qed.
+
 (* ------------------------------------------------------------------ shape of the action list *)
 Definition is_yield (e : pev) : bool := match e with PYield => true | _ => false end.
 Definition n_yields (l : list pev) : nat := length (filter is_yield l).
